@@ -257,11 +257,12 @@ class SoapClient(SoapClientProtocol):
         :param request_manipulator: see documentation of RequestManipulatorProtocol
         :param validate: set to False if no schema validation shall be done
         """
-        if self.is_closed() and not self._has_connection_error:
-            # implicit connect
-            self.connect()
-        if self.is_closed():
-            raise NotConnected
+        with self._lock:  # several threads can use this client: only one of them may (re-)connect
+            if self.is_closed() and not self._has_connection_error:
+                # implicit connect
+                self.connect()
+            if self.is_closed():
+                raise NotConnected
         xml_request = self._prepare_message(created_message, request_manipulator, validate)
         started = time.perf_counter()
         try:
